@@ -1,3 +1,158 @@
-import VotelibModel.Condorcet
+/-
+  C06 — Condorcet winner, Smith set and Schwartz set are computed exactly.
+  Property theorems only (helper lemmas live in VotelibProofs/Lemmas).  Namespace VL.C06.
+
+  Reading: `votes` is a Python dict `(upper, lower) -> count`; `WF votes` = keys are distinct (a dict),
+  no candidate is paired with himself, counts are non-negative.  The candidates are all names that occur
+  in a key; an absent pair counts 0 : 0; `Beats v x y` ⇔ `d x y > d y x`.
+
+  * Smith set  = the ⊆-least non-empty set of candidates each of whose members beats every outsider;
+  * Schwartz set = the union of the ⊆-minimal non-empty sets of candidates that no outsider beats.
+  Sets of candidates are predicates `Cand → Prop`; the selectors return duplicate-free lists.
+-/
+import VotelibProofs.Lemmas.CondorcetWinner
+import VotelibProofs.Lemmas.SmithModel
 namespace VL.C06
+open VL VL.Condorcet Relation
+
+/-! ### specifications (textbook definitions over `Beats`) -/
+
+/-- every member is a candidate and beats every candidate outside the set -/
+def Dominating (v : Pairwise) (S : Cand → Prop) : Prop := Graph.Dominating (candidates v) (Beats v) S
+/-- every member is a candidate and no candidate outside the set beats a member -/
+def Undominated (v : Pairwise) (S : Cand → Prop) : Prop := Graph.Undominated (candidates v) (Beats v) S
+/-- ⊆-minimal among the non-empty undominated sets -/
+def MinimalUndominated (v : Pairwise) (S : Cand → Prop) : Prop :=
+  Graph.MinimalUndominated (candidates v) (Beats v) S
+
+/-- reachability form of the Smith set: reaches every other candidate by "is not beaten by" steps -/
+def smithSpec (v : Pairwise) (c : Cand) : Prop := Graph.SmithReach (candidates v) (Beats v) c
+/-- reachability form of the Schwartz set: reaches back everybody who reaches it by "beats" steps -/
+def schwartzSpec (v : Pairwise) (c : Cand) : Prop := Graph.SchwartzReach (candidates v) (Beats v) c
+
+/-- the unfolded meaning of `Dominating`, for the reader -/
+theorem dominating_iff (v : Pairwise) (S : Cand → Prop) :
+    Dominating v S ↔ (∀ s, S s → s ∈ candidates v) ∧
+      ∀ s o, S s → o ∈ candidates v → ¬ S o → pget v (o, s) < pget v (s, o) := Iff.rfl
+
+/-- the unfolded meaning of `Undominated`, for the reader -/
+theorem undominated_iff (v : Pairwise) (S : Cand → Prop) :
+    Undominated v S ↔ (∀ s, S s → s ∈ candidates v) ∧
+      ∀ s o, S s → o ∈ candidates v → ¬ S o → ¬ pget v (s, o) < pget v (o, s) := Iff.rfl
+
+/-! ### Condorcet winner -/
+
+/-- **`CondorcetWinner` returns `[c]` exactly when `c` strictly beats every other candidate.** -/
+theorem cw_exact {v : Pairwise} (hwf : WF v) (c : Cand) : condorcetWinner v = [c] ↔ IsCW v c :=
+  ⟨cw_sound hwf, cw_complete hwf⟩
+
+/-- … and the empty list exactly when nobody does; there is no third outcome. -/
+theorem cw_none {v : Pairwise} (hwf : WF v) : condorcetWinner v = [] ↔ ¬ ∃ c, IsCW v c := by
+  constructor
+  · rintro h ⟨c, hc⟩
+    rw [cw_complete hwf hc] at h
+    simp at h
+  · intro h
+    rcases condorcetWinner_shape v with h0 | ⟨c, hc⟩
+    · exact h0
+    · exact absurd ⟨c, cw_sound hwf hc⟩ h
+
+/-- at most one candidate beats all others -/
+theorem cw_unique {v : Pairwise} {c c' : Cand} (h : IsCW v c) (h' : IsCW v c') : c = c' := h.unique h'
+
+/-! ### the closure loop -/
+
+/-- **The loop L88-93 computes the transitive closure** of the start relation (Smith: "not beaten by",
+    Schwartz: "beats") among distinct candidates — for every dictionary, no well-formedness needed. -/
+theorem closure_reach (v : Pairwise) (ties : Bool) (a b : Cand) :
+    (a, b) ∈ closure (candidates v) (reach0 (candidates v) (pairwiseWins v false) ties) ↔
+      a ≠ b ∧ TransGen (fun x y => (x, y) ∈ reach0 (candidates v) (pairwiseWins v false) ties) a b :=
+  mem_closure_reach0 a b
+
+/-! ### model output = reachability specification -/
+
+theorem smith_exact {v : Pairwise} (hwf : WF v) (c : Cand) : c ∈ smithSet v ↔ smithSpec v c :=
+  mem_smithSet hwf c
+
+theorem schwartz_exact {v : Pairwise} (hwf : WF v) (c : Cand) : c ∈ schwartzSet v ↔ schwartzSpec v c :=
+  mem_schwartzSet hwf c
+
+theorem smith_nodup (v : Pairwise) : (smithSet v).Nodup := nodup_smithSchwartz v true
+theorem schwartz_nodup (v : Pairwise) : (schwartzSet v).Nodup := nodup_smithSchwartz v false
+
+/-! ### reachability specification = textbook set (graph theory, independent of the code) -/
+
+theorem smithSpec_dominating (v : Pairwise) : Dominating v (smithSpec v) := Graph.smithReach_dominating
+
+theorem smithSpec_nonempty (v : Pairwise) (hne : candidates v ≠ []) : ∃ c, smithSpec v c :=
+  Graph.smithReach_nonempty (fun _ _ h => Beats.asymm h) hne
+
+theorem smithSpec_least (v : Pairwise) {S : Cand → Prop} (hS : Dominating v S) (hne : ∃ s, S s) {c : Cand}
+    (hc : smithSpec v c) : S c := Graph.smithReach_least hS hne hc
+
+theorem schwartzSpec_is_union_of_minimal_undominated (v : Pairwise) (c : Cand) :
+    schwartzSpec v c ↔ ∃ S, MinimalUndominated v S ∧ S c :=
+  Graph.schwartzReach_iff (fun _ h => (Beats.ne h) rfl) c
+
+/-! ### the property -/
+
+/-- **SmithSet returns exactly the smallest non-empty set whose members each beat every outsider**:
+    its output is dominating, non-empty (when there is a candidate at all), and contained in every
+    non-empty dominating set.  No density or tie-freeness premise. -/
+theorem smith_is_least_dominating {v : Pairwise} (hwf : WF v) :
+    Dominating v (fun c => c ∈ smithSet v) ∧
+    (candidates v ≠ [] → ∃ c, c ∈ smithSet v) ∧
+    ∀ S : Cand → Prop, Dominating v S → (∃ s, S s) → ∀ c ∈ smithSet v, S c := by
+  have heq : (fun c => c ∈ smithSet v) = smithSpec v := funext fun c => propext (smith_exact hwf c)
+  refine ⟨?_, ?_, ?_⟩
+  · rw [heq]; exact smithSpec_dominating v
+  · intro hne
+    obtain ⟨c, hc⟩ := smithSpec_nonempty v hne
+    exact ⟨c, (smith_exact hwf c).2 hc⟩
+  · intro S hS hne c hc
+    exact smithSpec_least v hS hne ((smith_exact hwf c).1 hc)
+
+/-- **SchwartzSet returns exactly the union of the minimal non-empty sets that no outsider beats.** -/
+theorem schwartz_is_union_of_minimal_undominated {v : Pairwise} (hwf : WF v) (c : Cand) :
+    c ∈ schwartzSet v ↔ ∃ S, MinimalUndominated v S ∧ S c := by
+  rw [schwartz_exact hwf, schwartzSpec_is_union_of_minimal_undominated]
+
+/-- the Condorcet winner, when there is one, is the whole Smith set -/
+theorem smith_of_cw {v : Pairwise} (hwf : WF v) {c : Cand} (h : IsCW v c) (x : Cand) :
+    x ∈ smithSet v ↔ x = c := by
+  have hdom : Dominating v (fun x => x = c) := by
+    refine ⟨fun s hs => hs ▸ h.1, fun s o hs ho hno => ?_⟩
+    subst hs
+    exact h.2 o ho hno
+  obtain ⟨_, hne, hleast⟩ := smith_is_least_dominating hwf
+  constructor
+  · exact fun hx => hleast _ hdom ⟨c, rfl⟩ x hx
+  · rintro rfl
+    obtain ⟨y, hy⟩ := hne (List.ne_nil_of_mem h.1)
+    have := hleast _ hdom ⟨x, rfl⟩ y hy
+    exact this ▸ hy
+
+/-! ### non-vacuity: concrete inputs of the shapes named in the property text -/
+
+/-- `a ~ b`, both beating `c` (sparse: the reverse pairs of the wins are absent) -/
+def exTied : Pairwise := [((0, 1), 2), ((1, 0), 2), ((0, 2), 3), ((1, 2), 3)]
+/-- two disconnected majorities -/
+def exDisconnected : Pairwise := [((0, 1), 3), ((2, 3), 2)]
+/-- a Condorcet winner who never appears as a loser -/
+def exCW : Pairwise := [((0, 1), 3), ((0, 2), 3), ((1, 2), 2), ((2, 1), 1)]
+
+example : WF exTied := by decide +kernel
+example : WF exDisconnected := by decide +kernel
+example : WF exCW := by decide +kernel
+example : IsCW exCW 0 := by decide +kernel
+example : condorcetWinner exCW = [0] := by decide +kernel
+example : condorcetWinner exTied = [] := by decide +kernel
+example : ¬ ∃ c, IsCW exTied c := (cw_none (by decide +kernel)).1 (by decide +kernel)
+example : schwartzSet exTied = [0, 1] := by decide +kernel
+example : smithSet exTied = [0, 1] := by decide +kernel
+example : smithSet exDisconnected = [0, 2, 1, 3] := by decide +kernel
+example : schwartzSet exDisconnected = [0, 2] := by decide +kernel
+example : schwartzSet [((0, 1), 1), ((1, 0), 1)] = [0, 1] := by decide +kernel
+example : smithSet exCW = [0] := by decide +kernel
+
 end VL.C06
